@@ -7,10 +7,16 @@
    parametric in it (`is_ip`). *)
 From Coq Require Import List NArith ZArith Bool.
 From Dae Require Import C18_GoStrings.
+From Dae.gen Require Import C18_Consts.
 Import ListNotations.
 Open Scope N_scope.
 
 Inductive dial_mode := ModeIp | ModeDomain | ModeDomainPlus | ModeDomainCao.
+
+(* Built-in outbounds (direct, block, must_rules, the control-plane and logical markers) are the 8-bit
+   indices outside the user-defined range [OutboundUserDefinedMin, OutboundUserDefinedMax]. *)
+Definition builtin_outbound (outbound : N) : bool :=
+  (outbound <? outbound_user_defined_min) || (outbound_user_defined_max <? outbound).
 
 (* What the control plane knows about the sniffed name when it decides:
    resolved  — dae itself resolved this name for the destination's address family and the original TTL
@@ -28,6 +34,11 @@ Inductive sniff_class :=
 | CIpLit (a : str)                (* an IP literal, bare or in brackets; a = the literal itself *)
 | CHostPort (h p : str)           (* already carries a port *)
 | CName (h : str).                (* anything else: a host name (one pair of enclosing brackets removed) *)
+
+(* An IP literal whose own text contains a bracket: only possible with a bracket inside an IPv6 zone
+   identifier (netip.ParseAddr accepts any non-empty zone). *)
+Definition literal_clean (c : sniff_class) : bool :=
+  match c with CIpLit a => no_brackets a | _ => true end.
 
 Section WithIp.
   Variable is_ip : str -> bool.
